@@ -27,24 +27,8 @@ def exCfg0 : Cfg := { src := fun i => 100 + i, idf := fun i p => 1000 * i + p, r
 
 /-! ## regenerated arithmetic and decisions = the model's -/
 
-/-- `fetchTail` starts at `max(destination tree size, begin)` in continuous mode and for a negative configured start,
-and at `max(configured start, begin)` otherwise. -/
-theorem fetchTail_start_arith (cont : Bool) (cfgStart : Int) (treeSize begin : Nat)
-    (h1 : cfgStart < 2^63) (h2 : (treeSize : Int) < 2^63) (h3 : (begin : Int) < 2^63) :
-    let s0 : Int := if cont then treeSize else if Gen.fetchTailNegStart cfgStart then treeSize else cfgStart
-    (if Gen.fetchTailBeginWins begin s0 then (begin : Int) else s0) = (passStart cont cfgStart treeSize begin : Nat) := by
-  have w : I64.wrap64 (begin : Int) = begin := I64.wrap64_id' _ (by omega) h3
-  simp only [Gen.fetchTailBeginWins, Gen.fetchTailNegStart, passStart, w]
-  cases cont with
-  | true => simp only [if_true]; split <;> rename_i h <;> simp only [decide_eq_true_eq] at h <;> omega
-  | false =>
-    simp only [Bool.false_eq_true, if_false]
-    by_cases hn : cfgStart < 0
-    · simp only [hn, decide_true, if_true]; split <;> rename_i h <;> simp only [decide_eq_true_eq] at h <;> omega
-    · simp only [hn, decide_false, Bool.false_eq_true, if_false]
-      split <;> rename_i h <;> simp only [decide_eq_true_eq] at h <;> omega
-
-/-- The same for the whole start computation **in the order the code performs it** (`Gen.fetchTailRange` is the statement
+/-- `fetchTail` starts at `max(destination tree size, begin)` in continuous mode and for a negative configured start, and at
+`max(configured start, begin)` otherwise — the whole start computation **in the order the code performs it** (`Gen.fetchTailRange` is the statement
 sequence between `fo := c.opts.FetcherOptions` and the log line, translated in order): the pass starts at `passStart`, in
 continuous mode the configured end is ignored, and the inner fetcher is never continuous. Moving the `begin` clamp above
 the mode branch (so that continuous mode forgets the position) makes this false. -/
